@@ -21,6 +21,7 @@ pub fn no_child(_: &[String]) -> i32 {
 pub mod okey;
 pub mod extid;
 pub mod capi;
+pub mod capix;
 
 pub fn all() -> Vec<StreamDef> {
     vec![
@@ -28,6 +29,7 @@ pub fn all() -> Vec<StreamDef> {
         extid::def(),
         capi::def(),
         capi::def_ryw(),
+        capix::def(),
     ]
 }
 
